@@ -133,7 +133,11 @@ func evalRun(cases []string, obs, oracle *common.Out) {
 					verdict = fmt.Sprintf("FAIL [C15] static score %d lies in the range reserved for mate scores", sa)
 				}
 			}
-			return a + " | " + b + " | mir=ok"
+			mat := " mat=0"
+			if poslib.MaterialOK(p) {
+				mat = " mat=1"
+			}
+			return a + " | " + b + " | mir=ok" + mat
 		})
 		if res == "panic" && poslib.NaiveInv(p) == "" && poslib.MaterialOK(p) {
 			verdict = "FAIL [C15] evaluation panics on a legal position"
